@@ -240,6 +240,14 @@ def gen_history(rng):
         if use_H:
             k = rng.randint(1, n)
             B = gen.rmat(rng, k, n)
+            if data['H_sparse'] and rng.random() < 0.7:
+                # H = sum of b b' with b supported on a random subset of the variables: positive semidefinite with a
+                # sparsity pattern that differs from one factorisation to the next (as the Hessian of a user's F may)
+                for t in range(k):
+                    keep = set(rng.sample(range(n), rng.randint(1, n)))
+                    for j in range(n):
+                        if j not in keep:
+                            B[j * k + t] = 0.0
             Hm = [[sum(B[i * k + t] * B[j * k + t] for t in range(k)) for j in range(n)] for i in range(n)]
             if zero_col is not None:
                 for i in range(n):
@@ -258,6 +266,14 @@ def gen_history(rng):
                 op['H_upper'] = [0.0 if st == 'lower' else round(rng.uniform(-9, 9), 3) for _ in range(n * (n - 1) // 2)]
         if mnl:
             Df = gen.rmat(rng, mnl, n)
+            if data['Df_sparse'] and rng.random() < 0.7:
+                # a sparse Jacobian whose pattern changes between calls (an all-zero row is a gradient that vanishes)
+                for idx in range(len(Df)):
+                    if rng.random() < 0.45:
+                        Df[idx] = 0.0
+                if rng.random() < 0.2:
+                    for j in range(n):
+                        Df[j * mnl] = 0.0
             if zero_col is not None:
                 for i in range(mnl):
                     Df[zero_col * mnl + i] = 0.0
